@@ -195,7 +195,7 @@ Lemma ccpy_loop_writes c ch od odmax : 1 <= odmax -> forall rem n d s, n <= Z.of
   writes_in (ext od odmax) (ccpy_loop c ch od odmax rem n d s).
 Proof.
   intros Hod. induction rem as [|rem IH]; intros n d s Hn H1 H2; cbn [ccpy_loop].
-  - apply writes_in_bind; [|intros; exact I]. apply handle_error_writes; try lia. intros a; rewrite Z.mul_1_r; auto.
+  - apply writes_in_bind; [|intros; exact I]. apply handle_mem_error_writes; auto.
   - rewrite Nat2Z.inj_succ in *. destruct (n =? 0); cbn [writes_in]; [split; [apply range_ext; lia|exact I]|].
     intros x. split; [apply range_ext; lia|]. destruct (x =? ch).
     + destruct (null_slack c && (1 <? n)) eqn:E; [|exact I]. apply andb_true_iff in E. destruct E as [_ E]. apply Z.ltb_lt in E.
